@@ -366,6 +366,7 @@ class Run:
         self.fragile_reprs = 0
         self.shared_registrations = 0
         self.plain_phase_calls = 0
+        self.nested_tree_probes = 0
         run = self
 
         class Pool:
@@ -712,6 +713,13 @@ class Run:
                 async def start(self_inner) -> None:  # noqa: N805
                     if dur:
                         await anyio.sleep(dur)
+                    if run.case.get("probe_ctx"):
+                        # C12: also two component trees deep, a new context's parent is the context the outer tree was started in
+                        from asphalt.core import Context as _Context
+
+                        run.nested_tree_probes += 1
+                        if _Context().parent is not run.caller_ctx:
+                            run.ctx_parent_ok = False
                     add_teardown_callback(lambda: run.log("teardown-run", f"sub{sub_id}b"))
                     run.log("teardown-reg", f"sub{sub_id}b")
                     # the root of the inner tree publishes a resource under the default name: it is a root component with no
@@ -961,6 +969,8 @@ def check_success(run: Run, *, exact_schedule: bool = True) -> tuple[list[dict[s
         inc("optional_lookups_through_inject", run.via_inject)
     if run.annotated_factories:
         inc("factories_typed_by_a_union_return_annotation", run.annotated_factories)
+    if run.nested_tree_probes:
+        inc("contexts_created_in_a_component_tree_started_inside_a_component", run.nested_tree_probes)
     if run.plain_phase_calls:
         inc("prepare_or_start_methods_returning_a_non_coroutine_awaitable", run.plain_phase_calls)
     if run.shared_registrations >= 2:
